@@ -8,7 +8,7 @@ import gffutils.convert as CV
 from gffutils import constants
 from gffutils.attributes import Attributes
 
-from pyvc.core import SInt, SStr, SSeq, Val, Lit, IntLit, SeqLit, Undecided, Ctx, mkstr
+from pyvc.core import SBool, SInt, SStr, SSeq, Val, Lit, IntLit, SeqLit, Undecided, Ctx, mkstr
 from pyvc.interp import Interp
 from pyvc import ghostdb
 from pyvc.harness import split_atoms
@@ -63,10 +63,21 @@ class GhostChrom(object):
 
 
 class GhostFasta(object):
+    """assumed pyfaidx contract A-F: fasta[chrom][a:b] is the 0-based half-open slice, .reverse.complement the reverse
+    complement; fasta.get_seq(chrom, start, end, rc=False) is the 1-based closed interval, i.e. fasta[chrom][start-1:end],
+    reverse-complemented when rc"""
     _pyvc_model = True
 
     def __getitem__(self, chrom):
         return GhostChrom(chrom)
+
+    def get_seq(self, chrom, start, end, rc=False):
+        from pyvc.core import Ctx
+        lo = SInt(start.e - 1) if isinstance(start, SInt) else start - 1
+        g = GhostSeq(chrom, slice(lo if isinstance(lo, SInt) else SInt(z3.IntVal(lo)), end if isinstance(end, SInt) else SInt(z3.IntVal(end)), None))
+        if isinstance(rc, SBool):
+            rc = Ctx.current.branch(rc.e, "get_seq-rc")
+        return g.reverse.complement if rc else g
 
 
 def unit_len_sequence(U):
@@ -92,22 +103,37 @@ def unit_len_sequence(U):
             return it.call(F.Feature.sequence, [f, GhostFasta()], {"use_strand": use_strand})
 
         def replay(m, use_strand=use_strand):
-            import tempfile, os
+            # the model's coordinates when they lie inside the reference, then a neighbourhood:
+            # single bases at both ends, the whole reference, an inner interval; all three strands
+            import tempfile, os, shutil
             d = tempfile.mkdtemp()
-            fa = os.path.join(d, "x.fa")
-            seq = "ACGTTGCAAGGCTTAACCGGATATCG"
-            open(fa, "w").write(">c1\n%s\n" % seq)
-            st = m.get("strand", "+")
-            st = st if st in ("+", "-", ".") else "+"
-            a, b = 3, 11
-            f = F.Feature(seqid="c1", start=a, end=b, strand=st)
-            got = f.sequence(fa, use_strand=use_strand)
-            exp = seq[a - 1:b]
-            if use_strand and st == "-":
-                exp = exp[::-1].translate(str.maketrans("ACGT", "TGCA"))
-            import shutil
-            shutil.rmtree(d, ignore_errors=True)
-            return {"inputs": {"strand": st, "use_strand": use_strand, "start": a, "end": b}, "expected": exp, "observed": got, "violates": got != exp or len(got) != len(f)}
+            try:
+                fa = os.path.join(d, "x.fa")
+                seq = "ACGTTGCAAGGCTTAACCGGATATCG"
+                open(fa, "w").write(">c1\n%s\n" % seq)
+                st0 = m.get("strand", "+")
+                cands = []
+                a0, b0 = m.get("start"), m.get("end")
+                if isinstance(a0, int) and isinstance(b0, int) and 1 <= a0 <= b0 <= len(seq):
+                    cands.append((a0, b0))
+                cands += [(3, 11), (5, 5), (1, 1), (len(seq), len(seq)), (1, len(seq)), (7, 8)]
+                last = None
+                for st in ([st0] if st0 in ("+", "-", ".") else []) + ["-", "+", "."]:
+                    for a, b in cands:
+                        f = F.Feature(seqid="c1", start=a, end=b, strand=st)
+                        try:
+                            got = f.sequence(fa, use_strand=use_strand)
+                        except Exception as ex:
+                            got = "raised %r" % (ex,)
+                        exp = seq[a - 1:b]
+                        if use_strand and st == "-":
+                            exp = exp[::-1].translate(str.maketrans("ACGT", "TGCA"))
+                        last = {"inputs": {"strand": st, "use_strand": use_strand, "start": a, "end": b}, "expected": exp, "observed": got, "violates": got != exp or len(got) != len(f)}
+                        if last["violates"]:
+                            return last
+                return last
+            finally:
+                shutil.rmtree(d, ignore_errors=True)
         for p in U.explore(run2, it):
             ok = p.kind == "return" and isinstance(p.value, tuple) and p.value[0] == "seq"
             goal = z3.BoolVal(False)
